@@ -208,7 +208,7 @@ var c06Faults = Register(Prop[flowCase]{
 		c.Junk = nil
 		return c
 	},
-	Run: runC06, Render: renderFlow,
+	Run: runC06, Render: renderFlow, Minimize: minimizeFlow,
 })
 
 func TestC06Faults(t *testing.T) { Check(t, c06Faults) }
